@@ -21,6 +21,18 @@ from translate import c28 as tr
 #                {"k": "raw", "hex": ...}   (tokenizer cross-validation only)
 
 
+def expand(case):
+    """{"k": "long", "kind", "seq", "offset", "total", "str"} -> a div holding one long value (a filler with the
+    multi-character sequence placed at the given offset) followed by a sentinel text"""
+    if case.get("k") != "long":
+        return case
+    seq = bytes.fromhex(case["seq"])
+    off, total = case["offset"], case["total"]
+    data = b"x" * off + seq + b"x" * max(0, total - off - len(seq))
+    node = {"k": case["kind"], "hex": data.hex(), "str": bool(case.get("str"))}
+    return {"k": "tag", "name": "div", "attrs": [], "children": [node, {"k": "text", "hex": b"<z>".hex(), "str": False}]}
+
+
 def unwrap(n):
     k = n["k"]
     if k == "wrap":
@@ -321,6 +333,7 @@ def impl(case) -> str:
         return ("- " + show_tokens(ref_tokens(raw)) + " h" + data.hex() + ":" + str(len(raw) - idx) + ":"
                 + ("T" if guard else "F"))
     from twisted.web.error import FlattenerError
+    case = expand(case)
     try:
         b = flatten_real(case)
     except FlattenerError as e:     # never expected for the generated trees; its own __str__ is not safe to call
@@ -390,7 +403,11 @@ def expected_tokens(n):
     if k == "cdata":
         return [("D", bytes.fromhex(n["hex"]))]
     if k == "comment":
-        return [("m", None)]
+        b = bytes.fromhex(n["hex"])
+        inside = not b.startswith(b">") and not b.startswith(b"->") and b"--!>" not in b
+        # the comment's text must be exactly the escaped text (reference escaper); outside the HTML5 guard
+        # (known finding F10) a repaired escaper may write something else: position only
+        return [("m", _ref_comment(b) if inside else None)]
     if k == "seq":
         return [t for x in n["items"] for t in expected_tokens(x)]
     name = n["name"].encode()
@@ -400,8 +417,8 @@ def expected_tokens(n):
     return [("o", name, attrs, True)]
 
 
-def normalise(toks):
-    """merge adjacent CDATA sections' contents, drop comment data"""
+def normalise(toks, comment_data=False):
+    """merge adjacent CDATA sections' contents; comment data kept only on request"""
     out = []
     for t in toks:
         if t[0] == "d":
@@ -410,10 +427,23 @@ def normalise(toks):
             else:
                 out.append(("D", t[1]))
         elif t[0] == "m":
-            out.append(("m", None))
+            out.append(("m", t[1] if comment_data else None))
         else:
             out.append(t)
     return out
+
+
+def _same(got, want):
+    """token lists agree; a comment whose expected data is None matches any data"""
+    if len(got) != len(want):
+        return False
+    for g, w in zip(got, want):
+        if w[0] == "m" and g[0] == "m":
+            if w[1] is not None and g[1] != w[1]:
+                return False
+        elif g != w:
+            return False
+    return True
 
 
 def _merge_expected(toks):
@@ -533,14 +563,19 @@ def oracle(case, obs):
         # outside the guard an early end is the known finding F10 (reported on tree cases); a repaired
         # escaper that ends at the right place is accepted silently
         return None
+    case = expand(case)
     tree = unwrap(case)
     if obs.startswith("EXC:"):
         return Failure(case, "flattening raised " + obs, "flatten-raises:" + obs.split(":")[-1])
     flat = bytes.fromhex(obs.split(" ", 1)[0])
     want = _merge_expected(expected_tokens(tree))
-    got = normalise(ref_tokens(flat))
-    if got != want:
-        i, g, w = _first_diff(got, want)
+    got = normalise(ref_tokens(flat), comment_data=True)
+    if not _same(got, want):
+        i, g, w = next(((j, a, b) for j, (a, b) in enumerate(zip(got, want)) if not _same([a], [b])),
+                       (min(len(got), len(want)), None, None))
+        if g is None and w is None:
+            g = got[i] if i < len(got) else None
+            w = want[i] if i < len(want) else None
         kind = {"c": "text", "D": "cdata", "m": "comment", "o": "start-tag", "e": "end-tag"}.get((w or g or ("?",))[0], "other")
         if w and w[0] == "o" and g and g[0] == "o" and g[1] == w[1]:
             kind = "attribute-value"
@@ -550,6 +585,7 @@ def oracle(case, obs):
     if err:
         return Failure(case, err, "expat-disagrees")
     goth = normalise(ref_tokens(flat, html=True))
+    want = [("m", None) if t[0] == "m" else t for t in want]
     if goth != want:
         for cm in _comments(tree, []):
             if cm.startswith(b">"):
@@ -651,6 +687,17 @@ def gen(rng, tier):
                 else:
                     cases.append({"k": "seq", "as": "list", "items": [{"k": kind, "hex": b.hex(), "str": False},
                                                                       {"k": "text", "hex": b"<z>".hex(), "str": False}]})
+    # LONG values (> 64 KiB, the flattener's BUFFER_SIZE): the multi-character sequences at every offset in
+    # [k*65536 - 3, k*65536 + 1]; the escaping must not depend on where a value would be cut into buffers
+    B = 65536
+    offs = [(1, d) for d in (-3, -2, -1, 0, 1)] + ([(2, -2), (2, -1)] if tier == "quick" else [(2, d) for d in (-3, -2, -1, 0, 1)])
+    for k, d in offs:
+        o = k * B + d
+        total = o + 40
+        for kind, seqs in (("cdata", [b"]]>"]), ("comment", [b"-->", b"-", b"--"]), ("text", [b"<&>"])):
+            for sq in seqs:
+                cases.append({"k": "long", "kind": kind, "seq": sq.hex(), "offset": o, "total": total,
+                              "str": (k + d) % 2 == 0})
     for _ in range(500 if tier == "quick" else 6000):
         cases.append(_node(rng, rng.randrange(1, 6)))
     for _ in range(300 if tier == "quick" else 3000):
@@ -664,6 +711,8 @@ def gen(rng, tier):
 
 
 def to_coq(case):
+    if case["k"] == "long":
+        return None          # oracle only: 64 KiB values are not evaluated in Coq (the theorems are length-independent)
     if case["k"] == "raw":
         return "inr " + coq_bytes(bytes.fromhex(case["hex"]))
 
@@ -681,6 +730,8 @@ def to_coq(case):
 
 def shrink(case):
     k = case["k"]
+    if k == "long":
+        return
     if k == "wrap":
         yield case["node"]
     if k in ("text", "cdata", "comment", "raw"):
@@ -712,6 +763,8 @@ def shrink(case):
 
 
 def hist(case, obs):
+    if case["k"] == "long":
+        return "long-" + case["kind"]
     if case["k"] == "raw":
         return "raw:" + ("error" if "! h" in obs or obs.split(" h")[0].endswith("!") else "ok")
 
@@ -738,7 +791,7 @@ SPEC = Spec(
     corpus=corpus,
     shrink=shrink,
     histogram=hist,
-    nontrivial=lambda c, o: c["k"] == "raw" or (not o.startswith("EXC:")) and any(x in bytes.fromhex(o.split(" ", 1)[0]) for x in (b"&", b"<!", b"=")),
+    nontrivial=lambda c, o: c["k"] in ("raw", "long") or (not o.startswith("EXC:")) and any(x in bytes.fromhex(o.split(" ", 1)[0]) for x in (b"&", b"<!", b"=")),
     rule="every text of length <= 3 (thorough 4, sampled at the last length) over {< > & quote - ] ! a} as comment / "
          "CDATA / content text / attribute value followed by a sentinel; random trees of depth <= 5 (tags incl. void "
          "elements and namespaced names, 0..2 attributes whose values are texts or whole subtrees, lists / tuples / "
